@@ -37,6 +37,6 @@ DELIVERABLES, all inside {wt}/seed/ (create it):
   seed/change1/demo.c (or demo.cc, plus any helper files) and seed/change1/run.sh -- run.sh takes the path of a c-ares build directory as $1 (e.g. `seed/change1/run.sh {wt}/_build`), compiles the demo against the library in that build dir and runs it; exit 0 = property observed to hold, non-zero = violation observed
   seed/change1/README.md    -- what the change is, why it breaks the property, exactly what is needed for it to manifest, and the commands you ran with their observed results (unchanged tree: suite passes, demo passes; changed tree: suite passes, demo fails)
   seed/change2/...          -- same for the second change{" (and seed/change3/... for the third)" if N3 else ""}
-Keep the working tree itself CLEAN at the end (git stash / git checkout the source changes so that `git status` shows only untracked seed/ and build dirs); the patches live only in seed/*/patch.diff.
+Keep the working tree itself CLEAN at the end (`git checkout -- src include` the source changes -- do NOT use `git stash`, it is shared between worktrees -- so that `git status` shows only untracked seed/ and build dirs); the patches live only in seed/*/patch.diff.
 
 Verify everything yourself before finishing: for each change, on a clean tree: build, run suite (must pass as baseline), run demo (must pass); apply patch, rebuild, run suite (must still pass), run demo (must fail); then revert. If a candidate change makes an existing test fail, discard it and find another. If after serious effort you can only produce fewer valid changes, deliver those and say so. If you notice that the UNCHANGED library already violates the property somewhere, mention it briefly at the end but do not count it as one of your changes. Your final message should briefly list the changes (file/function, what breaks, what is needed to manifest) and the verification results.""")
